@@ -192,6 +192,32 @@ func TestBoundedC18(t *testing.T) {
 		r.done()
 	}
 
+	// PruneSubtrie, two in a row on the same trie (a prune leaves empty leaves
+	// behind; the next prune must still remove exactly the members under its prefix)
+	{
+		r := &bReport{t: t, name: "PruneSubtrie(sequence)"}
+		for _, s := range sets {
+			for _, k1 := range all {
+				for _, k2 := range all {
+					r.cases++
+					tr := bTrie(s)
+					PruneSubtrie(tr, k1)
+					PruneSubtrie(tr, k2)
+					var want []bitstr.Key
+					for _, x := range s {
+						if !bIsPrefix(k1, x) && !bIsPrefix(k2, x) {
+							want = append(want, x)
+						}
+					}
+					if got := bKeys(tr); !bEq(got, bSorted(want)) {
+						r.fail("S=%q prune %q then %q: got %q want %q", s, k1, k2, got, bSorted(want))
+					}
+				}
+			}
+		}
+		r.done()
+	}
+
 	// PruneSubtrie: exactly the members under k disappear
 	{
 		r := &bReport{t: t, name: "PruneSubtrie"}
